@@ -119,6 +119,7 @@ type c10Data struct {
 	Prefill  int      `json:"prefill"`
 	LongKeys bool     `json:"long_keys,omitempty"`
 	Collide  bool     `json:"colliding_keys,omitempty"`
+	Negative bool     `json:"negative_keys,omitempty"`
 	Neutral  bool     `json:"content_neutral_whole_op,omitempty"`
 	Ops      []*c10Op `json:"ops"`
 	Label    string   `json:"label,omitempty"`
@@ -825,6 +826,10 @@ func c10Setup(d *c10Data) (interface{}, []int) {
 		// pairs that share a bucket of the default table (101 slots) next to keys that do not
 		keys = []int{1, 2, 102, 103}
 	}
+	if d.Negative {
+		// keys are signed: negative ones next to positive ones (hashes of real keys are)
+		keys = []int{-1, 2, -102, 103}
+	}
 	if d.Prefill > 0 {
 		populate(obj, d.Prefill, 1000)
 	}
@@ -845,6 +850,7 @@ func c10LinBody(rc *RunCtx) {
 	d.Variant = simrt.Choose(t.Variants)
 	d.LongKeys = simrt.Chance(1, 2)
 	d.Collide = simrt.Chance(1, 3)
+	d.Negative = !d.Collide && simrt.Chance(1, 3)
 	rt := reflect.TypeOf(t.New(0))
 	_, hasMax := rt.MethodByName("SetMax")
 	switch simrt.Choose(4) {
